@@ -140,7 +140,9 @@ def verus_phase(prop, units_sel, tier, canary):
         errs = [d for d in res['diags'] if d['level'] == 'error']
         if vr.get('encountered-vir-error') or (vr.get('encountered-error') and not any(classify(d['message']) for d in errs)):
             msgs = '; '.join('%s (%s:%s)' % (d['message'], d['file'], d['line']) for d in errs[:5])
-            raise Undecided("compile / unsupported-construct error in the overlaid crate: " + msgs)
+            where = [ws.unit_at(d['file'], d['line']) for d in errs if d['file'] and d['line']]
+            where = [w for w in where if w]
+            raise Undecided("compile / unsupported-construct error in the overlaid crate: " + msgs, unit=where[0] if where else None)
         fr = verus.function_results(res)
         uids = set(u.id for u in units_sel)
         failures = []
@@ -252,6 +254,21 @@ def check_property(prop, tier='quick', seed=0):
             stats[eng['module']] = r
     except Undecided as ex:
         undecided = str(ex)
+        # The annotations no longer apply to a changed unit (or the changed code left the verifier's subset).
+        # That alone decides nothing; but if the unit's executable contract finds a concrete failing input on
+        # the real code, the violation is established by that input.
+        unit = getattr(ex, 'unit', None)
+        if unit and any(u.id == unit for u in sel):
+            from . import replay
+            f = Failure(prop, unit, 'unverifiable-change', 'annotations no longer apply', str(ex)[:300],
+                        'the overlay / verifier could not process the changed unit: %s' % ex, engine='replay')
+            try:
+                if replay.search(f, tier, seed):
+                    failures.append(f)
+                    undecided = None
+            except Exception:
+                pass
+            replay.cleanup()
     except Exception:
         undecided = 'internal error: ' + traceback.format_exc()[-1500:]
     wall = time.time() - t0
